@@ -505,6 +505,9 @@ def _infer_dtype(data):
             return np.dtype('uint8')
         else:
             return np.dtype('int8')
+    if data and isinstance(data[0], str):
+        # A numpy unicode array would strip trailing null characters from the strings
+        return np.dtype('O')
     return None
 
 
